@@ -334,6 +334,8 @@ impl Session {
                 self.log(format!("Ok, got {} peers from tracker", peers.len()))
                     .await;
                 self.candidates.extend_from_slice(&peers);
+                #[cfg(rdest_verif)]
+                self.verif_emit("TrackerPeers", "", &format!("\"n\":{}", peers.len()));
 
                 let all_am_interested = self
                     .peers
